@@ -55,6 +55,17 @@ def name_specs():
         m.exports = [A.Export(ename, "func", 0)]
         out.append({"hex": encode(m).hex(), "imports_spec": {"globals": {"0": 42}}, "calls": [[ename.hex(), []]],
                     "id": "names/" + tag, "names_case": True})
+    # import MODULE names starting with a digit: the C identifier <module>__<field> must still be an identifier (/repo ed458af; before it
+    # `(import "1env" "f")` gave `U32 1env__f(void*,U32);`), for every kind of import
+    for tag, imod in (("digit-module", b"1env"), ("digit-only-module", b"0"), ("digit-underscore-module", b"9x_"), ("digit-underscores", b"5__"),
+                      ("digit-utf8-module", "3ä".encode())):
+        m = A.Module()
+        m.types = [A.FuncType([], [A.I32]), A.FuncType([A.I32], [A.I32])]
+        m.imports = [A.Import(imod, b"g", "global", A.GlobalType(A.I32, False)), A.Import(imod, b"f", "func", 1),
+                     A.Import(imod, b"m", "memory", A.Limits(1, 1)), A.Import(imod, b"t", "table", A.TableType(A.Limits(2, None)))]
+        m.funcs = [A.Function(0, [], [I("global.get", 0), I("call", 0), I("i32.const", 0), I("i32.load8_u", 0, 0), I("i32.add")])]
+        m.exports = [A.Export(b"e", "func", 1)]
+        out.append({"hex": encode(m).hex(), "imports_spec": {"globals": {"0": 42}}, "calls": [["65", []]], "id": "names/" + tag})
     return out
 
 
@@ -137,7 +148,7 @@ def run(tier):
         "V8 (node 20) as reference for the printed results"]
     chk.assumptions = ["compiler acceptance is a fact about the compilers in the image (gcc 12.2, clang 14, x86-64 LE); it is tested over the matrix, not proved",
                        "forced big-endian builds are C19's subject"]
-    pr = ec.prove_if_present(chk, ["C11", "C11Ops"])
+    pr = ec.prove_if_present(chk, ["C11", "C11Ops", "C04Ident"])      # C04Ident: the C symbol of every import is a C identifier (regenerated mangling rule)
     broken = list(pr["errors"])
     n = {"quick": {"int": 40, "float": 40, "control": 60, "memory": 40},
          "thorough": {"int": 100, "float": 100, "control": 160, "memory": 100, "calls": 40, "init": 40}}[tier]
@@ -172,7 +183,7 @@ def run(tier):
             chk.count_case(("matrix", res["id"]), res.get("ncalls", 0) > 0,
                            dict(ec.sample_of(res), builds=len(res["builds"])) if len(chk.coverage["samples"]) < 6 and res.get("ncalls", 0) > 2 else None)
         # emit-tokens keeps the theorems' model tied to the same modules
-        tok = ec.emit_tokens_batch(env, gen, driver_ok=pr["driver_ok"])
+        tok = ec.emit_tokens_batch(env, gen + names + corpus, driver_ok=pr["driver_ok"])      # (directed names: Model.Render's import identifiers)
         nfun = sum(t["functions"] for t in tok.values())
         bad = [(sid, t["mismatch"][0]) for sid, t in tok.items() if t["mismatch"]]
         if bad:
